@@ -472,6 +472,7 @@ def _evaluate_quick(case):
 BOTTOM_FLAGS = [[True, False], [False, False], [False, True]]    # (static, incompressible) combinations with Kamata starting conditions
 IFACE_EPS = 1.0e-13
 W2_DYNAMIC = 1.0e-7        # w^2 R / g used for the solver's forcing frequency when a layer is dynamic (quasi-static)
+W2_DYNAMIC_INCOMP = 3.0e-6
 
 
 def _stack_layers(case):
@@ -554,6 +555,10 @@ def _evaluate_solver(case):
     layers = _stack_layers(case)
     K_incomp = 10.0 ** float((case.get('stack') or {}).get('log_K_incomp', 11.0))
     any_dynamic = any(not x[1] for x in layers)
+    # the dynamic INCOMPRESSIBLE equations are ill-conditioned deep in the quasi-static limit (C01's known finding
+    # KF-C01-dynamic-incomp-quasi-static: w^2R/g < 1e-6; thorough tier here: 1.7e-5 off with DOP853 at 1e-7, stable under the
+    # 100x tighter tolerance): stacks with such a layer are driven at w^2R/g = 3e-6, just outside that regime
+    w2_dyn = W2_DYNAMIC_INCOMP if any((not x[1]) and x[2] for x in layers) else W2_DYNAMIC
     labels = ['kind:solver', 'rheo:' + rh, 'scalar', 'solver:batch%d' % len(members), 'solver:layers%d' % len(layers),
               'bottom:%s_%s' % ('static' if layers[0][1] else 'dynamic', 'incomp' if layers[0][2] else 'comp')]
     for x in layers[1:]:
@@ -569,7 +574,7 @@ def _evaluate_solver(case):
         K = 10.0 ** case['log_K_factor'] * max(abs(mu_c), rho * g * R)
         # the solver's forcing frequency only enters the inertia terms of dynamic layers (mu~ is passed directly): with a
         # dynamic layer it is set to the quasi-static w^2 R/g = 1e-7, else the member's own frequency is passed (unused)
-        freq = math.sqrt(W2_DYNAMIC * g / R) if any_dynamic else 10.0 ** pt['log_freq']
+        freq = math.sqrt(w2_dyn * g / R) if any_dynamic else 10.0 ** pt['log_freq']
         prepared.append({'l': l, 'mu': mj, 'J': Jj, 'mu_c': mu_c, 'K': K, 'freq': freq})
         labels.append('l:%d' % l)
     labels = list(dict.fromkeys(labels))
@@ -621,7 +626,7 @@ def _evaluate_solver(case):
         # compressibility correction only from layers NOT flagged incompressible (they carry the compressible-limit K); the
         # finite K of layers flagged incompressible is documented as ignored and gets no allowance
         comp_term = 3.0 * (abs(m['mu_c']) + rho * g * R) / m['K'] if any(not x[2] for x in layers) else 0.0
-        tol = 1e-6 + 50.0 * delta + comp_term + (30.0 * W2_DYNAMIC if any_dynamic else 0.0)
+        tol = 1e-6 + 50.0 * delta + comp_term + (30.0 * w2_dyn if any_dynamic else 0.0)
         err = abs(k2 - k_closed)
         c.check(err <= tol, {'clause': 'solver', 'what': 'k_l'},
                 'layers (top/R, static, incompressible)=%r K_incomp=%.3g: ' % (layers, K_incomp) +
